@@ -39,8 +39,15 @@ use std::sync::{Arc, Mutex};
 /// main split point: 2025-06-01T11:30:00Z, half an hour before the frozen wall clock (inside the
 /// "last hour" default window and inside every explicit window used by the queries)
 const S_MAIN: i64 = EPOCH_NS - 1_800_000_000_000;
-const NEW_A: &str = "0a0a0a0a-new-lower";
-const NEW_B: &str = "0b0b0b0b-new-upper";
+/// ids of the new lower / upper shard. In half of the cases the lower shard's id sorts *after* the upper one's (real
+/// ids are random UUIDs): the split state's `new_shards` list is positional ([lower, upper]), not ordered by id.
+fn new_ids(c: &Case) -> (&'static str, &'static str) {
+    if c.desc_ids {
+        ("0b0b0b0b-new-lower", "0a0a0a0a-new-upper")
+    } else {
+        ("0a0a0a0a-new-lower", "0b0b0b0b-new-upper")
+    }
+}
 const METRICS: [&str; 2] = ["cpu", "mem"];
 const SPLIT_METRIC: &str = "cpu";
 
@@ -111,6 +118,9 @@ pub struct Case {
     pub flush_each: bool,
     pub reads: bool,
     pub script: Vec<Op>,
+    /// the lower new shard's id sorts after the upper one's
+    #[serde(default)]
+    pub desc_ids: bool,
 }
 
 fn to_row(r: &R, split: i64) -> Row {
@@ -500,7 +510,7 @@ async fn run_case_inner(c: &Case, tier: &str, verbose: bool, envs: &Arc<EnvState
                         }
                         _ => {
                             if !split_started {
-                                inner.start_split(&split_shard, vec![NEW_A.into(), NEW_B.into()], split_point.clone()).await?;
+                                inner.start_split(&split_shard, vec![new_ids(c).0.into(), new_ids(c).1.into()], split_point.clone()).await?;
                                 split_started = true;
                             }
                             match p {
@@ -564,7 +574,7 @@ async fn run_case_inner(c: &Case, tier: &str, verbose: bool, envs: &Arc<EnvState
             }
             Op::RunBackfill => {
                 let sp = ShardSplitter::new(inner.clone(), store.clone());
-                let r = AssertUnwindSafe(sp.run_backfill(&split_shard, &[NEW_A.to_string(), NEW_B.to_string()], &split_point)).catch_unwind().await;
+                let r = AssertUnwindSafe(sp.run_backfill(&split_shard, &[new_ids(c).0.to_string(), new_ids(c).1.to_string()], &split_point)).catch_unwind().await;
                 match r {
                     Ok(Ok(())) => {}
                     Ok(Err(e)) => {
@@ -671,6 +681,7 @@ async fn run_case_inner(c: &Case, tier: &str, verbose: bool, envs: &Arc<EnvState
                         }
                     };
                     let rows: Vec<Row> = rows.into_iter().map(|mut r| { r.id = -1; r }).collect();
+                    let (NEW_A, NEW_B) = new_ids(c);
                     let side = if ch.chunk_path.contains(&format!("shard={NEW_A}/")) {
                         out.stats.new_shard_chunks += 1;
                         in_a.extend(rows.iter().cloned());
@@ -1024,7 +1035,8 @@ fn routing_cases(tier: &str) -> Vec<Case> {
             script.extend(h.iter().map(|b| Op::Write(b.clone())));
             script.push(Op::Flush);
             script.push(Op::Check);
-            out.push(Case { os, ts_type, split, flush_each: false, reads: false, script });
+            let desc_ids = (out.len().wrapping_mul(2654435761) >> 9) & 1 == 1;
+            out.push(Case { os, ts_type, split, flush_each: false, reads: false, script, desc_ids });
         }
     };
     // simplest first: in-memory catalog, Int64, main split point, DualWrite
@@ -1105,7 +1117,8 @@ fn reads_cases(tier: &str) -> Vec<Case> {
                     script.extend(h.iter().map(|b| Op::Write(b.clone())));
                     script.push(Op::Flush);
                     script.push(Op::Check);
-                    out.push(Case { os, ts_type, split: S_MAIN, flush_each: *fe, reads: true, script });
+                    let desc_ids = (out.len().wrapping_mul(2654435761) >> 9) & 1 == 1;
+                    out.push(Case { os, ts_type, split: S_MAIN, flush_each: *fe, reads: true, script, desc_ids });
                 }
             }
         }
@@ -1143,13 +1156,14 @@ fn lifecycle_cases(tier: &str) -> Vec<Case> {
                                     Op::Flush,
                                     Op::Check,
                                 ];
-                                out.push(Case { os, ts_type: false, split: S_MAIN, flush_each: fe, reads: true, script: script.clone() });
+                                let desc_ids = (out.len().wrapping_mul(2654435761) >> 9) & 1 == 1;
+                                out.push(Case { os, ts_type: false, split: S_MAIN, flush_each: fe, reads: true, script: script.clone(), desc_ids });
                                 // the same split over a shard that already holds data (rows below, at and above the split
                                 // point), which the real back-fill copies into the new shards
                                 if real_backfill && w0 == &alpha[0] && w3 == &alpha[0] {
                                     let mut s2 = vec![Op::Historical(vec![R { dt: -1, m: 0, h: 0, v: 1 }, R { dt: 0, m: 0, h: 1, v: 2 }, R { dt: 1, m: 0, h: 2, v: 1 }])];
                                     s2.extend(script);
-                                    out.push(Case { os, ts_type: false, split: S_MAIN, flush_each: fe, reads: true, script: s2 });
+                                    out.push(Case { os, ts_type: false, split: S_MAIN, flush_each: fe, reads: true, script: s2, desc_ids: !desc_ids });
                                 }
                             }
                         }
